@@ -91,6 +91,29 @@ def enabledEvents (c : PanelCfg) (s : Sys) : List Ev := (allEvents s.ws.size).fi
 /-- leading columns of the panels, in order -/
 def panelsOf (n : Nat) (sh : Sh) : List Nat := (List.range n).filter fun j => decide (getZ sh.size j > 0)
 
+/-- the entries ever put into the task queue, in order -/
+def qlist (sh : Sh) : List Nat := (List.range sh.tail).map (fun k => getN sh.queue k)
+
+/-- Executable check of the state `ParallelInit` hands to the workers: sizes, queue cursors, the panel forest (`DADPANEL` strictly
+increasing, parents of panels are panels), queue entries are distinct runnable panels, every panel untaken with a valid state,
+`ukids` = number of child panels, runnable panels have no child panels, `tasks_remain` = number of panels, a root exists.
+It is the hypothesis of the system-level theorems (Props/C04Global.lean) and is evaluated by the driver on every configuration
+run through the real `ParallelInit`. -/
+def initOk (c : PanelCfg) (sh : Sh) : Bool :=
+  let P := panelsOf c.n sh
+  let dad := dadPanel c sh
+  decide (sh.state.size = c.n + 1) && decide (sh.ukids.size = c.n + 1) && decide (sh.queue.size = c.n)
+  && decide (sh.head ≤ sh.tail) && decide (sh.count = ((sh.tail : Int) - (sh.head : Int)))
+  && P.all (fun j => decide (j < dad j) && decide (dad j ≤ c.n))
+  && P.all (fun p => !(decide (dad p < c.n)) || P.contains (dad p))
+  && (List.range sh.tail).all (fun k => P.contains (getN sh.queue k) && (getN sh.state (getN sh.queue k) != UNREADY))
+  && decide ((qlist sh).Nodup)
+  && P.all (fun p => decide (BUSY < getN sh.state p) && decide (getN sh.state p ≤ UNREADY))
+  && (c.n :: P).all (fun d => decide (getZ sh.ukids d = ((P.filter (fun q => dad q == d)).length : Int)))
+  && P.all (fun d => (getN sh.state d == UNREADY) || P.all (fun q => dad q != d))
+  && decide (sh.tasksRemain = (P.length : Int))
+  && P.any (fun r => dad r == c.n)
+
 def taken (sh : Sh) (p : Nat) : Bool := decide (getN sh.state p ≤ BUSY)
 
 /-- tasks_remain = number of untaken panels -/
